@@ -571,6 +571,7 @@ def spec_socks_request_reader(ck, auth='NoAuth', inmax=600):
         return
     ex = ck.engine(loop_bound=8)
     ex.scan_bound = 40
+    ex.fill_buf_mode = 'split-once'      # a reader written over fill_buf/consume sees the input split at an arbitrary point
     st = State()
     inp = sym_bytes(ex, st, 'client_bytes', inmax)
     c = new_stream(ex, st, 'client', inp)
@@ -682,6 +683,7 @@ def spec_socks_response_reader(ck, inmax=400):
     if rf is None:
         return
     ex = ck.engine(loop_bound=8)
+    ex.fill_buf_mode = 'split-once'
     st = State()
     inp = sym_bytes(ex, st, 'upstream_bytes', inmax)
     c = new_stream(ex, st, 'upstream', inp)
